@@ -352,6 +352,15 @@ def nontrivial(case, real):
 def run(prop, tier, seed, n_cases, corpus=()):
     rng = rng_for(seed, 'K6', tier)
     cases = list(corpus) + [gen_case(rng) for _ in range(n_cases)]
+    # curves of thousands of observations cost seconds each: a dozen per run, the further ones cut to 800 observations
+    n_long = 0
+    for c in cases[len(corpus):]:
+        if len(c['equity']) > 1000:
+            n_long += 1
+            if n_long > 12:
+                c['equity'] = c['equity'][:800]
+                if c.get('benchmark'):
+                    c['benchmark'] = c['benchmark'][:800]
     reals = [execute(c) for c in cases]
     outs = run_driver_json('k6', 'float', [model_line(c, r) for c, r in zip(cases, reals)])
     tally, stats, hist = Tally(), collections.Counter(), collections.Counter()
